@@ -93,15 +93,20 @@ def d2(chk, prog, ploidies):
     it = Interp(prog, par_model())
     fi = prog.fn(GETDF)
     tb = Table(chk, "copies-table", "reference/expect copies (row classes x flags)", fi.loc(), fi.qn)
-    for P, hap, fem, par, style in itertools.product(ploidies, [False, True], [False, True], [None, "grch37", "grch38"], ["", "chr"]):
-        df = tb.guard(lambda: it.run(GETDF, [cna(CLS5, style), P, hap, par, fem]), f"P={P} hap={hap} fem={fem} par={par}")
+    # (tables holding only some of the classes -- one chromosome called at a time, a panel whose only Y probes lie in a PAR: a class's copies do not depend on
+    #  which other classes are present)
+    subsets = [CLS5, ("pary",), ("auto", "pary"), ("parx",), ("y", "auto"), ("x",)]
+    for P, hap, fem, par, style, classes in itertools.product(ploidies, [False, True], [False, True], [None, "grch37", "grch38"], ["", "chr"], subsets):
+        if classes is not CLS5 and (P not in (2, 3) or style == "" or par == "grch37"):
+            continue
+        df = tb.guard(lambda: it.run(GETDF, [cna(list(classes), style), P, hap, par, fem]), f"P={P} hap={hap} fem={fem} par={par} classes={classes}")
         if df is None:
             continue
-        for i, c in enumerate(CLS5):
+        for i, c in enumerate(classes):
             got = (df.cols["reference"].v[i], df.cols["expect"].v[i])
             want = ref_exp_oracle(c, P, hap, fem, par)
             tb.cell(same(got[0], want[0]) and same(got[1], want[1]),
-                    dict(ploidy=P, haploid_x_reference=hap, sample_female=fem, par_genome=par, naming=style or "bare", cls=c,
+                    dict(ploidy=P, haploid_x_reference=hap, sample_female=fem, par_genome=par, naming=style or "bare", cls=c, table=list(classes),
                          got=dict(reference=repr(got[0]), expect=repr(got[1])), want=dict(reference=want[0], expect=want[1])))
     tb.done("reference/germline copy numbers differ from the stated table",
             sample=dict(clause="D2", cell=dict(ploidy=2, hap=True, fem=False, par="grch38", cls="parx"), reference=2, expect=2))
@@ -297,6 +302,9 @@ def run(chk):
     from . import C15
     C15.d3c_stated_sex(chk, prog)
     C15.sex_labels(chk, prog)       # the names under which the X / Y rows are found (C15 rule)
+    chk.clause("STATE", "a call's result does not depend on the tables handled before it in the process: no class-level / module-level container written by the table classes or the calling code (C10-D4 rule)")
+    from . import C10
+    C10.shared_state(chk, prog, modules=("skgenome.gary", "cnvlib.cnary", "cnvlib.call", "cnvlib.segfilters"))
     chk.clause("D7", "the `call` command line: every option reaches do_call (and the centring / variant / sex steps before it) as given")
     from .. import cliglue
     cliglue.check_call(chk, prog)
